@@ -2,7 +2,8 @@
 
    Mirrors the Go code statement by statement, defects included:
      StartHunt / StopHunt / Close           spoof.go:32-68, arp.go:62-70
-     spoofLoop (one iteration = Wake)       spoof.go:74-124   (membership looked up BY IP: findHuntByIP)
+     spoofLoop (one iteration = Wake)       spoof.go:74-124   (membership looked up by MAC, the map key,
+                                                               since the repair of DESIGN #27; before it: findHuntByIP)
      ProcessPacket (RxArp)                  arp.go:284-398
    plus the one session fact ProcessPacket consults (DHCPv4IPOffer), which the
    environment changes with SetOffer.
@@ -68,7 +69,7 @@ Inductive event :=
 | StartHuntInvalid                (* StartHunt with nil MAC or an address that is not Is4(): ErrInvalidIP *)
 | StopHunt (m : mac)
 | Close
-| Wake (i : nat) (hint : mac)     (* loop i runs one iteration; hint resolves Go map order in findHuntByIP *)
+| Wake (i : nat)                  (* loop i runs one iteration (goroutine start, ticker or closeChan) *)
 | RxArp (p : arp_pkt)             (* ProcessPacket on a valid ARP frame *)
 | SetOffer (m : mac) (o : option ip4).   (* environment: the session's DHCP offer for m changes *)
 
@@ -79,16 +80,8 @@ Definition hunt_has (m : mac) (h : list addr) : bool := existsb (fun e => amac e
 
 Definition hunt_del (m : mac) (h : list addr) : list addr := filter (fun e => negb (amac e =? m)) h.
 
-(* findHuntByIP: "for _, v := range h.huntList { if v.IP == ip { return v, true } }".
-   Go map iteration order is arbitrary: any matching entry may be returned.
-   [hint] names the MAC of the entry the iteration met first; if no matching
-   entry has that MAC the first match in list order is taken. *)
-Definition find_hunt_by_ip (hint : mac) (ip : ip4) (h : list addr) : option addr :=
-  let ms := filter (fun e => aip e =? ip) h in
-  match find (fun e => amac e =? hint) ms with
-  | Some e => Some e
-  | None => hd_error ms
-  end.
+(* h.huntList[string(addr.MAC)]: the entry stored under the MAC (at most one) *)
+Definition hunt_find (m : mac) (h : list addr) : option addr := find (fun e => amac e =? m) h.
 
 (* session.DHCPv4IPOffer(mac) restricted to offers that are Is4() *)
 Fixpoint offer_of (m : mac) (o : list (mac * ip4)) : option ip4 :=
@@ -144,13 +137,13 @@ Definition kill (i : nat) (l : list loop) : list loop :=
   end.
 
 (* one iteration of spoofLoop, from the top of the for to the select *)
-Definition wake (c : cfg) (s : state) (i : nat) (hint : mac) : state * list frame :=
+Definition wake (c : cfg) (s : state) (i : nat) : state * list frame :=
   match nth_error (loops s) i with
   | None => (s, [])
   | Some lp =>
       if negb (alive lp) then (s, [])     (* the goroutine has returned: nothing can happen *)
       else
-        match find_hunt_by_ip hint (aip (laddr lp)) (hunt s) with
+        match hunt_find (amac (laddr lp)) (hunt s) with
         | Some target =>
             if closed s then (set_loops s (kill i (loops s)), [])            (* !hunting || h.closed; closed: no restore *)
             else (s, [announce c (amac target)])                               (* AnnounceTo(targetAddr.MAC, router IP) *)
@@ -192,7 +185,7 @@ Definition step (c : cfg) (s : state) (e : event) : state * list frame :=
   | StartHuntInvalid => (s, [])
   | StopHunt m => stop_hunt s m
   | Close => (set_closed s, [])
-  | Wake i hint => wake c s i hint
+  | Wake i => wake c s i
   | RxArp p => rx_arp c s p
   | SetOffer m o => (set_offers s (offers_set m o (offers s)), [])
   end.
@@ -227,7 +220,7 @@ Definition cfg_ok (c : cfg) : Prop := host_mac c <> router_mac c.
 
 (* shapes of events, for statements about runs *)
 Definition is_wake_of (i : nat) (e : event) : bool :=
-  match e with Wake j _ => Nat.eqb i j | _ => false end.
+  match e with Wake j => Nat.eqb i j | _ => false end.
 Definition is_close (e : event) : bool := match e with Close => true | _ => false end.
 Definition is_start_of (m : mac) (e : event) : bool :=
   match e with StartHunt a => amac a =? m | _ => false end.
@@ -254,14 +247,7 @@ Definition known_C13_probe_router (c : cfg) (s : state) (e : event) : bool :=
   | _ => false
   end.
 
-(* K2 (#27): loop i is due to stop (its own MAC is no longer hunted) but another hunted MAC carries
-   the loop's IPv4 address, so the by-IP lookup still succeeds. *)
-Definition known_C13_shared_ip (s : state) (i : nat) : bool :=
-  match nth_error (loops s) i with
-  | Some lp => alive lp && negb (hunted s (amac (laddr lp)))
-               && existsb (fun e => aip e =? aip (laddr lp)) (hunt s)
-  | None => false
-  end.
+(* (K2, DESIGN #27 — membership of the loop looked up by IP — was repaired in /repo; see known_findings.txt) *)
 
 (* K3: after Close the receive path (ProcessPacket has no test of h.closed) still emits a forged
    frame: the spoof reply to a hunted MAC's who-has-router, or a probe-reject for the router's address. *)
